@@ -4,7 +4,7 @@
     process time zone, map iteration orders, read faults and the failing
     output sink as explicit parameters.  Model only. *)
 From HP Require Import Base.Bytes Base.Utf8 Base.Num Model.Scanner Model.Parser Model.Elements Model.Resolver
-  Model.Dates Model.Tree Model.Writer Model.Reporters.
+  Model.Dates Model.Tree Model.Writer Model.Reporters Model.Config.
 
 Section Cli.
   Context (NM : Num).
@@ -91,6 +91,18 @@ Section Cli.
 
   Definition no_cfg : cfg_entries := {| ce_db := None; ce_log := None; ce_fmt := None; ce_depth := None; ce_now := None |}.
 
+  (** the five values [Config.parse_config] reads from a configuration text *)
+  Definition cfg_of_fields (f : cfg_fields) : cfg_entries :=
+    {| ce_db := cf_db f; ce_log := cf_log f; ce_fmt := cf_fmt f; ce_depth := cf_depth f; ce_now := cf_now f |}.
+
+  (** gcfg.ReadInto on the bytes of a regular file (Model/Config.v) *)
+  Definition read_config (data : bytes) : cerr + cfg_entries :=
+    match parse_config data with
+    | CfgOk f => inr (cfg_of_fields f)
+    | CfgError => inl EConfigSyntax
+    | CfgUnmodelled => inl (EUnmodelled (b "config file syntax"))
+    end.
+
   (** the configuration file part of Load *)
   Definition load_config (w : world) (i : invocation) : cerr + cfg_entries :=
     let path := or_default (first_some [i_f_config i; i_e_config i]) (w_default_config w) in
@@ -98,7 +110,7 @@ Section Cli.
     | None => if is_set (i_f_config i) (i_e_config i) then inl EConfigMissing else inr no_cfg
     | Some (FConfig e) => inr e
     | Some FDir => inl (EScan false)
-    | Some (FFile _) => inl (EUnmodelled (b "config file syntax"))
+    | Some (FFile data) => read_config data
     end.
 
   (** a string value: the flag/env pair when set, or when the file left it empty; else the file's *)
@@ -116,7 +128,7 @@ Section Cli.
 
   (** GetTimeFromString *)
   Definition time_from_string (w : world) (now : time) (toks : list ltoken) (s : bytes) : cerr + time :=
-    if beq s (b "today") then inr (to_local now (w_tz w))
+    if beq s (b "today") then inr now          (* the date as given: no conversion to the local zone (fix 4fa5d57) *)
     else if beq s (b "yesterday") then inr (add_days now (-1))
     else if beq s (b "last7") then inr (add_days now (-7))
     else if beq s (b "last30") then inr (add_days now (-30))
